@@ -16,7 +16,7 @@ tie between model and source is re-proved on every run instead of sampled.  A co
 supported subset makes the function untranslatable: it is recorded in `Gen.codeMissing` and no `def`
 is emitted, so the equivalence proofs stop building and the check goes to its failing-input search.
 """
-import ast, os, sys, json, hashlib
+import copy, ast, os, sys, json, hashlib
 
 REPO = os.environ.get('DCMSTACK_REPO', '/repo')
 HERE = os.path.dirname(os.path.abspath(__file__))
@@ -462,7 +462,7 @@ class Tr:
         if isinstance(s, ast.Assert):
             if isinstance(s.test, ast.Constant) and s.test.value is False:
                 return ['%sthrow PyErr.assertionError' % ind]
-            raise Unsupported('assert ' + self.src(s.test))
+            return ['%sif (!%s) then' % (ind, self.b(s.test)), '%s  throw PyErr.assertionError' % ind]
         if isinstance(s, ast.If):
             out = ['%sif %s then' % (ind, self.b(s.test))]
             out += self.block(s.body, ind + '  ')
@@ -485,7 +485,12 @@ class Tr:
             if any('←' in part for part in [cond]):
                 raise Unsupported('monadic call inside a search loop condition')
             if self.is_declared(v) and v in self.opt_locals:
-                return ['%s%s := (%s).find? (fun %s => %s)' % (ind, v, self.e(s.iter), x, cond)]
+                out_ = ['%s%s := (%s).find? (fun %s => %s)' % (ind, v, self.e(s.iter), x, cond)]
+                if x in getattr(self, 'leak_vars', ()):
+                    # the loop variable is read after the loop: the element the loop stopped at, or the last one
+                    out_.append('%slet %s := (match %s with | some x_ => x_ | none => (%s).getLastD Cls.gconst)' % (ind, x, v, self.e(s.iter)))
+                    self.declared[-1].add(x)
+                return out_
             if self.is_declared(v):
                 return ['%smatch (%s).find? (fun %s => %s) with' % (ind, self.e(s.iter), x, cond),
                         '%s| some v_ => %s := v_' % (ind, v),
@@ -610,11 +615,29 @@ class TrKeyDict(Tr):
         if isinstance(s, ast.Assign) and len(s.targets) == 1 and isinstance(s.targets[0], ast.Subscript) \
                 and self.src(s.targets[0].slice) == 'key' and isinstance(s.targets[0].value, ast.Call) \
                 and self.src(s.targets[0].value.func) == 'self.get_class_dict' and len(s.targets[0].value.args) == 1:
-            return ['%sd_ := d_.set %s %s' % (ind, self.atom(s.targets[0].value.args[0]), self.atom(s.value))]
+            a = s.targets[0].value.args[0]
+            if isinstance(a, ast.Name) and a.id in self.opt_locals:
+                # `get_class_dict(None)`: TypeError
+                return ['%slet some c_ := %s | throw PyErr.typeError' % (ind, a.id), '%sd_ := d_.set c_ %s' % (ind, self.atom(s.value))]
+            return ['%sd_ := d_.set %s %s' % (ind, self.atom(a), self.atom(s.value))]
         if isinstance(s, ast.Delete) and len(s.targets) == 1 and isinstance(s.targets[0], ast.Subscript) \
                 and self.src(s.targets[0].slice) == 'key' and isinstance(s.targets[0].value, ast.Call) \
                 and self.src(s.targets[0].value.func) == 'self.get_class_dict' and len(s.targets[0].value.args) == 1:
             return ['%sd_ := (← KeyDict.del d_ %s)' % (ind, self.atom(s.targets[0].value.args[0]))]
+        if isinstance(s, ast.Assign) and len(s.targets) == 1 and isinstance(s.targets[0], ast.Name) \
+                and isinstance(s.value, ast.Call) and self.src(s.value.func) == 'self.get_class_dict' and len(s.value.args) == 1:
+            # a name for one of the dictionaries of `self`: writes through it go to that class
+            self.dict_alias = dict(getattr(self, 'dict_alias', {}))
+            self.dict_alias[s.targets[0].id] = self.atom(s.value.args[0])
+            return []
+        if isinstance(s, ast.Assign) and len(s.targets) == 1 and isinstance(s.targets[0], ast.Subscript) \
+                and self.src(s.targets[0].slice) == 'key' and isinstance(s.targets[0].value, ast.Name) \
+                and s.targets[0].value.id in getattr(self, 'dict_alias', {}):
+            return ['%sd_ := d_.set %s %s' % (ind, self.dict_alias[s.targets[0].value.id], self.atom(s.value))]
+        if isinstance(s, ast.Expr) and self.src(s.value) == 'self._simplify(key)':
+            # the translated `_simplify` on the key's current values and class, its edits replayed on the dictionaries
+            return ['%slet some (c_, v_) := KeyDict.valuesAndClass (← get_valid_classes self_shape) d_ | throw PyErr.keyError' % ind,
+                    '%sd_ := (← KeyDict.applyFx d_ (← simplify null self_shape self_n_slices content v_ c_).2)' % ind]
         if isinstance(s, ast.Assign) and len(s.targets) == 1 and isinstance(s.targets[0], ast.Name) \
                 and self.src(s.value) == 'self.get_classification(key)':
             x = s.targets[0].id
@@ -838,6 +861,7 @@ GROUP_OF = {
     'get_shape_counts': 'stack', 'chk_order_check': 'stack',
     'global_slice_subset': 'values', 'insert_slice_interleave': 'values', 'insert_sample_interleave': 'values',
     'copy_slice_dest': 'values', 'copy_slice_vals': 'values', 'get_changed_class': 'values',
+    'copy_slice': 'subset', 'copy_sample': 'subset',
     'reclassify': 'insert', 'change_class': 'insert', 'insert_slice': 'insert', 'insert_non_slice': 'insert', 'insert_sample': 'insert',
     'chk_equal': 'stackadd', 'chk_close': 'stackadd', 'chk_congruent': 'stackadd', 'add_dcm': 'stackadd',
     'get_data_trim': 'data', 'file_idx_volume': 'data', 'file_idx_slice': 'data', 'get_data': 'data',
@@ -854,6 +878,7 @@ GROUP_IMPORTS = {
     'data': ['DcmVerif.Generated.PyPrelude', 'DcmVerif.Model.Wrap'],
     'values': ['DcmVerif.Generated.Code_classes'],
     'insert': ['DcmVerif.Generated.Code_values'],
+    'subset': ['DcmVerif.Generated.Code_values', 'DcmVerif.Generated.Code_simplify'],
     'stackadd': ['DcmVerif.Generated.PyPrelude', 'DcmVerif.Model.StackAdd'],
 }
 GEN_DIR = os.environ.get('GEN_CODE_DIR', os.path.normpath(os.path.join(HERE, '..', 'lean', 'DcmVerif', 'Generated')))
@@ -1278,6 +1303,62 @@ def translate():
              'single ordinates (`_slice_pos_vals`, `_time_vals`, `_vector_vals`) are projections of `_sorting_tuples` and are not kept. '
              'An exception leaves the attributes as they are at that point: the result is the state together with the exception raised, if any',
              prologue=['let mut st_ := st'], run='Id.run do')
+    # ---- per-key dictionary edits of subsets (group `subset`): _copy_slice, _copy_sample for one key of `other`
+    def per_key(stmts):
+        """the body of the method for one key: loops over the keys of `src_dict` are replaced by their bodies"""
+        out_ = []
+        for st in stmts:
+            if isinstance(st, ast.For) and ast.unparse(st.iter) in ('iteritems(src_dict)', 'src_dict.keys()') and not st.orelse:
+                out_ += per_key(st.body)
+                continue
+            st = copy.copy(st)
+            for fld in ('body', 'orelse'):
+                if isinstance(getattr(st, fld, None), list) and getattr(st, fld):
+                    setattr(st, fld, per_key(getattr(st, fld)))
+            out_.append(st)
+        return out_
+    SUB_SIG = ('{α : Type} [DecidableEq α] (null : α) (self_shape : List Nat) (self_n_slices : Option Nat) (content : List String) '
+               '(d : KeyDict α) ')
+    sub_attrs = {'self.get_valid_classes()': 'valid_', 'other.n_slices': '(← pyGet other_n_slices)', 'self.n_slices': '(← pyGet self_n_slices)',
+                 'other.shape[3]': '(other_shape)[3]!', 'self._preserving_changes[src_class]': '(preserving (some src_class))',
+                 'deepcopy(vals[idx])': '[(← pyIndex vals idx)]'}
+    f = find_func(dm, 'DcmMetaExtension', '_copy_slice')
+    if f is None:
+        missing.append('copy_slice: not found')
+    else:
+        tr = TrKeyDict(dict(sub_attrs), {'self.get_multiplicity(dest_class)': 'get_multiplicity self_shape self_n_slices dest_class'},
+                       cls_vars=['src_class', 'dest_class'])
+        tr.hoist = {'dest_class': 'Cls.gconst'}
+        tr.list_vars = {'subset_vals', 'full_vals', 'vals'}
+        tr.skip_assign = {'src_dict'}
+        tr.stmt_map = {'if len(subset_vals) == 1:': []}
+        tr.div_guard = True
+        emit('copy_slice', SUB_SIG + '(other_n_slices : Option Nat) (src_class : Cls) (vals : List α) (idx : Nat) : Except PyErr (KeyDict α)',
+             per_key(f.body) + [ast.parse('return').body[0]], tr,
+             '`DcmMetaExtension._copy_slice` (dcmmeta.py) for one key of `other` held under `src_class` with the values `vals` (the loop '
+             'over the keys is replaced by its body): destination class, strided and repeated values, write, `_simplify`',
+             prologue=['let mut d_ := d', 'let valid_ ← get_valid_classes self_shape'])
+    f = find_func(dm, 'DcmMetaExtension', '_copy_sample')
+    if f is None:
+        missing.append('copy_sample: not found')
+    else:
+        tr = TrKeyDict(dict(sub_attrs),
+                       {'self.get_multiplicity(dest_cls)': 'get_multiplicity self_shape self_n_slices dest_cls',
+                        'self.get_multiplicity(src_class)': 'get_multiplicity self_shape self_n_slices src_class',
+                        'other._global_slice_subset(key, sample_base, idx)':
+                            'global_slice_subset other_shape (← pyGet other_n_slices) vals sample_base idx'},
+                       cls_vars=['src_class', 'dest_cls', 'dest_class'])
+        tr.opt_locals = {'best_dest'}
+        tr.leak_vars = {'dest_cls'}
+        tr.list_vars = {'vals', 'subset_vals'}
+        tr.skip_assign = {'src_dict'}
+        tr.stmt_map = {'best_dest = None': ['let mut best_dest : Option Cls := none']}
+        tr.stmt_map_declares = {'best_dest = None': ['best_dest']}
+        emit('copy_sample', SUB_SIG + '(other_shape : List Nat) (other_n_slices : Option Nat) (src_class : Cls) (vals : List α) '
+             '(sample_base : String) (idx : Nat) : Except PyErr (KeyDict α)',
+             per_key(f.body) + [ast.parse('return').body[0]], tr,
+             '`DcmMetaExtension._copy_sample` (dcmmeta.py) for one key of `other` held under `src_class` with the values `vals`',
+             prologue=['let mut d_ := d', 'let valid_ ← get_valid_classes self_shape'])
     # ---- check_valid
     f = find_func(dm, 'DcmMetaExtension', 'check_valid')
     if f is None:
